@@ -33,7 +33,8 @@ def base_val(n, e):
 def enum_decl(ed: EnumDef, derive_debug=False, doc=False, vis='pub'):
     args = f"u{ed.n}"
     if not ed.omit_exh:
-        args += f", exhaustive {ed.spell} {ed.exhaustive}" if ed.spell == '=' else f", exhaustive: {ed.exhaustive}"
+        ex = f"exhaustive {ed.spell} {ed.exhaustive}" if ed.spell == '=' else f"exhaustive: {ed.exhaustive}"
+        args = f"{ex}, {args}" if getattr(ed, "exh_first", False) else f"{args}, {ex}"
     allv = [(d, True) for d in ed.discs] + [(d, False) for d in ed.dead]
     if ed.dead_first:
         allv = [(d, False) for d in ed.dead] + [(d, True) for d in ed.discs]
@@ -241,10 +242,12 @@ def from_val(f: Field, e):
 
 def head_text(s: Struct, const_name=None):
     args = base_ty(s.n)
+    if s.debug and getattr(s, "debug_first", False):
+        args += ", debug"
     if s.default is not None:
         val = const_name if s.default_form == 'const' else default_lit(s)
         args += f", default = {val}" if s.default_sep == '=' else f", default: {val}"
-    if s.debug:
+    if s.debug and not getattr(s, "debug_first", False):
         args += ", debug"
     vis = getattr(s, "vis", "pub")
     return f"#[bitfield({args})] {vis + ' ' if vis else ''}struct {s.name}"
@@ -286,6 +289,11 @@ def struct_decl(s: Struct, derives='', doc=False):
     for i, f in enumerate(s.fields):
         if doc or f.doc:
             lines.append(f"    /// documented field {f.name}")
+            if i % 3 == 1:
+                lines.append("    ///")
+                lines.append("    /// second paragraph of the field's documentation, with `code` and a [link](https://example.org)")
+            elif i % 3 == 2:
+                lines.append('    #[doc = "documentation written as an attribute"]')
         lines.append(f"    {field_text(f, i)},")
     lines.append("}")
     txt = "\n".join(lines)
@@ -556,7 +564,7 @@ def field_to_py(f: Field):
     if f.enum is not None:
         e = f.enum
         d["enum"] = {"n": e.n, "exhaustive": e.exhaustive, "discs": [hex(x) for x in e.discs], "dead": [hex(x) for x in e.dead],
-                     "spell": e.spell, "omit_exh": e.omit_exh, "dead_first": e.dead_first, "alias": e.alias}
+                     "spell": e.spell, "omit_exh": e.omit_exh, "dead_first": e.dead_first, "alias": e.alias, "exh_first": e.exh_first}
     return d
 
 
@@ -567,7 +575,7 @@ def field_from_py(d):
     if d.get("enum"):
         e = d["enum"]
         d["enum"] = EnumDef(e["n"], e["exhaustive"], tuple(int(x, 16) for x in e["discs"]), tuple(int(x, 16) for x in e["dead"]),
-                            e["spell"], e["omit_exh"], dead_first=e.get("dead_first", False), alias=e.get("alias", ""))
+                            e["spell"], e["omit_exh"], dead_first=e.get("dead_first", False), alias=e.get("alias", ""), exh_first=e.get("exh_first", False))
     return Field(**d)
 
 
@@ -581,7 +589,8 @@ def struct_from_spec(ms):
                   default_form=py.get("default_form", "lit"), default_sep=py.get("default_sep", "="),
                   debug=ms.get("debug", False), family=ms.get("family", ""), name=ms["name"],
                   has_builder=ms.get("has_builder", False), passes=[tuple(p) for p in ms.get("passes", [])],
-                  twin=py.get("twin", False))
+                  twin=py.get("twin", False), debug_first=py.get("debug_first", False), derives=py.get("derives", ""), vis=py.get("vis", "pub"),
+                  keep_names=True)
 
 
 def spec_field(f: Field, i):
@@ -611,7 +620,8 @@ def spec_struct(s: Struct):
         "family": s.family,
         "passes": [list(p) for p in s.passes],
         "head": head_text(s, f"DV_{s.name.upper()}"),
-        "py": {"default_form": s.default_form, "default_sep": s.default_sep, "twin": s.twin},
+        "py": {"default_form": s.default_form, "default_sep": s.default_sep, "twin": s.twin, "debug_first": getattr(s, "debug_first", False),
+               "derives": getattr(s, "derives", ""), "vis": getattr(s, "vis", "pub"), "keep_names": getattr(s, "keep_names", False)},
     }
 
 
